@@ -52,7 +52,11 @@ def gen_case(rng, gpg=None, stratum=None):
         rolekeys[n] = (ks, t)
         dels[n] = gmd.delegation(ks, t)
     ttype = rng.choice(["root", "key_mgr"])
-    trusted = gmd.envelope(gmd.delegating(ttype, dels, version=rng.randint(1, 9)))
+    if rng.random() < 0.06:
+        # integral non-int numerics (accepted by the checker today; verdict is a grey zone, purity is not)
+        for n in dels:
+            dels[n]["threshold"] = float(dels[n]["threshold"])
+    trusted = gmd.envelope(gmd.delegating(ttype, dels, version=rng.choice([rng.randint(1, 9), 3.0]) if rng.random() < 0.1 else rng.randint(1, 9)))
     attackers = U[7:10]
     role = rng.choice(names)
     if stratum == "unknown_role":
@@ -103,8 +107,25 @@ def gen_case(rng, gpg=None, stratum=None):
         usigned = jsonvals.rand_payload(rng)
         if rng.random() < 0.3:
             # payload that LOOKS like delegating metadata but is not (unsupported type / missing field)
-            usigned = gmd.delegating(rng.choice(["pkg_mgr", "other", role]), {role: gmd.delegation(attackers[:1], 1)})
-            if rng.random() < 0.5:
+            # signed content that is NOT delegating metadata although it looks like it: unsupported type, or a supported type
+            # name on a document that fails the schema (draft with fractional seconds, missing field, version 0 ...).  It is
+            # arbitrary signed content: no type binding applies, the named role's keys and threshold decide alone.
+            usigned = gmd.delegating(rng.choice(["pkg_mgr", "other", role, "root", "key_mgr", "root", "key_mgr"]),
+                                     {role: gmd.delegation(attackers[:1], 1)})
+            how = rng.choice(["del_expiration", "fractional_dates", "version_0", "delegations_list", "none_if_unsupported", "del_spec", "type_only"])
+            if how == "del_expiration":
+                usigned.pop("expiration")
+            elif how == "fractional_dates":
+                usigned["timestamp"], usigned["expiration"] = "2021-01-01T00:00:00.500Z", "2031-01-01T00:00:00.500Z"
+            elif how == "version_0":
+                usigned["version"] = 0
+            elif how == "delegations_list":
+                usigned["delegations"] = [role]
+            elif how == "del_spec":
+                usigned.pop("metadata_spec_version")
+            elif how == "type_only":
+                usigned = {"type": usigned["type"], "payload": [1, 2, 3]}
+            elif usigned["type"] in ("root", "key_mgr"):
                 usigned.pop("expiration")
     untrusted = gmd.envelope(usigned)
     data = canonjson.canon(usigned)
